@@ -2,7 +2,7 @@ import LymuiVerif.Core.Hex
 /-!
 # Lemmas about the hand model of `hex.rs` (core Lean only)
 
-The parser `Gen.Rgb.try_from_Hex` is characterised, for ALL strings (lists of arbitrary code points),
+The parser `Gen.HexHand.Rgb.try_from_Hex` is characterised, for ALL strings (lists of arbitrary code points),
 by two pure readers parameterised by the digit-value function: `read6 dv t` reads the first six
 characters of `t` two by two, `read3 dv t` reads the first three, each doubled.
 -/
@@ -42,8 +42,8 @@ def read3 (dv : Nat → Option Nat) : Str → Option (Nat × Nat × Nat)
 
 /-! ## digits -/
 
-theorem hexDigitVal_lt {c v : Nat} (h : hexDigitVal c = some v) : v < 16 := by
-  unfold hexDigitVal at h
+theorem hexDigitVal_lt {c v : Nat} (h : HexHand.hexDigitVal c = some v) : v < 16 := by
+  unfold HexHand.hexDigitVal at h
   split at h
   · cases h; omega
   · split at h
@@ -52,8 +52,8 @@ theorem hexDigitVal_lt {c v : Nat} (h : hexDigitVal c = some v) : v < 16 := by
       · cases h; omega
       · cases h
 
-theorem hexDigitVal_ascii {c v : Nat} (h : hexDigitVal c = some v) : c < 128 := by
-  unfold hexDigitVal at h
+theorem hexDigitVal_ascii {c v : Nat} (h : HexHand.hexDigitVal c = some v) : c < 128 := by
+  unfold HexHand.hexDigitVal at h
   split at h
   · omega
   · split at h
@@ -62,11 +62,11 @@ theorem hexDigitVal_ascii {c v : Nat} (h : hexDigitVal c = some v) : c < 128 := 
       · omega
       · cases h
 
-theorem utf8Len_hex {c v : Nat} (h : hexDigitVal c = some v) : utf8Len c = 1 := by
+theorem utf8Len_hex {c v : Nat} (h : HexHand.hexDigitVal c = some v) : utf8Len c = 1 := by
   have := hexDigitVal_ascii h
   simp [utf8Len, this]
 
-theorem hexDigitVal_hash : hexDigitVal 35 = none := by decide
+theorem hexDigitVal_hash : HexHand.hexDigitVal 35 = none := by decide
 
 /-! ## byte offsets -/
 
@@ -146,35 +146,35 @@ theorem getRange_shift2 (c0 c1 : Nat) (rest : Str) (a b : Nat) (h0 : utf8Len c0 
 /-! ## one channel -/
 
 /-- the channel at byte offset `k`: `get(k..k+2)` then the closure `parse` -/
-def part (t : Str) (k : Nat) : Option Nat := (Str.getRange t k (k + 2)).bind Hex.parsePart
+def part (t : Str) (k : Nat) : Option Nat := (Str.getRange t k (k + 2)).bind HexHand.Hex.parsePart
 
-theorem parsePart_cons_none {a : Nat} (l : Str) (h : hexDigitVal a = none) : Hex.parsePart (a :: l) = none := by
-  simp [Hex.parsePart, h]
+theorem parsePart_cons_none {a : Nat} (l : Str) (h : HexHand.hexDigitVal a = none) : HexHand.Hex.parsePart (a :: l) = none := by
+  simp [HexHand.Hex.parsePart, h]
 
-theorem parsePart_cons_cons_none {a b : Nat} (l : Str) (h : hexDigitVal b = none) :
-    Hex.parsePart (a :: b :: l) = none := by
-  simp [Hex.parsePart, h]
+theorem parsePart_cons_cons_none {a b : Nat} (l : Str) (h : HexHand.hexDigitVal b = none) :
+    HexHand.Hex.parsePart (a :: b :: l) = none := by
+  simp [HexHand.Hex.parsePart, h]
 
-theorem parsePart_two {a b va vb : Nat} (ha : hexDigitVal a = some va) (hb : hexDigitVal b = some vb) :
-    Hex.parsePart [a, b] = some (16 * va + vb) := by
+theorem parsePart_two {a b va vb : Nat} (ha : HexHand.hexDigitVal a = some va) (hb : HexHand.hexDigitVal b = some vb) :
+    HexHand.Hex.parsePart [a, b] = some (16 * va + vb) := by
   have := hexDigitVal_lt ha
   have := hexDigitVal_lt hb
   have h1 : va ≤ 255 := by omega
   have h2 : va * 16 + vb ≤ 255 := by omega
   have h3 : va * 16 + vb = 16 * va + vb := by omega
   have h4 : 16 * va + vb ≤ 255 := by omega
-  simp [Hex.parsePart, parseHexDigits, ha, hb, h1, h3, h4]
+  simp [HexHand.Hex.parsePart, HexHand.parseHexDigits, ha, hb, h1, h3, h4]
 
 /-- the first channel is the first two characters, both hexadecimal digits -/
 theorem part_zero : ∀ t : Str, part t 0 =
     (match t with
-     | a :: b :: _ => pair hexDigitVal a b
+     | a :: b :: _ => pair HexHand.hexDigitVal a b
      | _ => none) := by
   intro t
   match t with
   | [] => simp [part, Str.getRange, Str.isBoundary]
   | a :: t1 =>
-    cases ha : hexDigitVal a with
+    cases ha : HexHand.hexDigitVal a with
     | none =>
       have : part (a :: t1) 0 = none := by
         simp only [part, Str.getRange, Str.charsIn]
@@ -188,7 +188,7 @@ theorem part_zero : ∀ t : Str, part t 0 =
       match t1 with
       | [] => simp [part, Str.getRange, Str.isBoundary, hl]
       | b :: t2 =>
-        cases hb : hexDigitVal b with
+        cases hb : HexHand.hexDigitVal b with
         | none =>
           have : part (a :: b :: t2) 0 = none := by
             simp only [part, Str.getRange, Str.charsIn, hl]
@@ -222,17 +222,17 @@ theorem take2_some {dv : Nat → Option Nat} {t t1 : Str} {r : Nat} (h : take2 d
         simp [ha, hb] at h
         exact ⟨a, b, va, vb, by rw [h.2], ha, hb, h.1.symm⟩
 
-theorem part_zero_take2 (t : Str) : part t 0 = (take2 hexDigitVal t).map Prod.fst := by
+theorem part_zero_take2 (t : Str) : part t 0 = (take2 HexHand.hexDigitVal t).map Prod.fst := by
   rw [part_zero]
   match t with
   | [] => rfl
   | [_] => rfl
   | a :: b :: rest =>
     simp only [take2]
-    cases pair hexDigitVal a b <;> rfl
+    cases pair HexHand.hexDigitVal a b <;> rfl
 
 theorem part_shift2 {a b va vb : Nat} (rest : Str) (k : Nat)
-    (ha : hexDigitVal a = some va) (hb : hexDigitVal b = some vb) :
+    (ha : HexHand.hexDigitVal a = some va) (hb : HexHand.hexDigitVal b = some vb) :
     part (a :: b :: rest) (k + 2) = part rest k := by
   simp only [part]
   rw [getRange_shift2 _ _ _ _ _ (utf8Len_hex ha) (utf8Len_hex hb)]
@@ -241,42 +241,42 @@ theorem part_shift2 {a b va vb : Nat} (rest : Str) (k : Nat)
 theorem parts_eq_read6 (t : Str) :
     (match part t 0, part t 2, part t 4 with
      | some r, some g, some b => some (r, g, b)
-     | _, _, _ => none) = read6 hexDigitVal t := by
+     | _, _, _ => none) = read6 HexHand.hexDigitVal t := by
   rw [part_zero_take2]
   unfold read6
-  cases h : take2 hexDigitVal t with
+  cases h : take2 HexHand.hexDigitVal t with
   | none => simp
   | some p =>
     obtain ⟨r, t1⟩ := p
     obtain ⟨a, b, va, vb, rfl, ha, hb, rfl⟩ := take2_some h
     rw [show (4 : Nat) = 2 + 2 from rfl, part_shift2 _ 2 ha hb,
       show (2 : Nat) = 0 + 2 from rfl, part_shift2 _ 0 ha hb, part_zero_take2]
-    cases h1 : take2 hexDigitVal t1 with
+    cases h1 : take2 HexHand.hexDigitVal t1 with
     | none => simp [h1]
     | some p1 =>
       obtain ⟨g, t2⟩ := p1
       obtain ⟨c, d, vc, vd, rfl, hc, hd, rfl⟩ := take2_some h1
       rw [part_shift2 _ 0 hc hd, part_zero_take2]
-      cases h2 : take2 hexDigitVal t2 with
+      cases h2 : take2 HexHand.hexDigitVal t2 with
       | none => simp [h1, h2]
       | some p2 => obtain ⟨b', t3⟩ := p2; simp [h1, h2]
 
 /-! ## `get_u8_parts` and `try_from` -/
 
 theorem get_u8_parts_eq (s0 : Str) :
-    (∃ c, Hex.get_u8_parts s0 = .ok c ∧ read6 hexDigitVal (Hex.strip s0) = some c) ∨
-    (∃ e, Hex.get_u8_parts s0 = .error e ∧ read6 hexDigitVal (Hex.strip s0) = none) := by
+    (∃ c, HexHand.Hex.get_u8_parts s0 = .ok c ∧ read6 HexHand.hexDigitVal (HexHand.Hex.strip s0) = some c) ∨
+    (∃ e, HexHand.Hex.get_u8_parts s0 = .error e ∧ read6 HexHand.hexDigitVal (HexHand.Hex.strip s0) = none) := by
   rw [← parts_eq_read6]
-  simp only [Hex.get_u8_parts, part]
-  cases Str.getRange (Hex.strip s0) 0 2 <;> cases Str.getRange (Hex.strip s0) 2 4 <;>
-    cases Str.getRange (Hex.strip s0) 4 6 <;> simp
+  simp only [HexHand.Hex.get_u8_parts, part]
+  cases Str.getRange (HexHand.Hex.strip s0) 0 2 <;> cases Str.getRange (HexHand.Hex.strip s0) 2 4 <;>
+    cases Str.getRange (HexHand.Hex.strip s0) 4 6 <;> simp
   rename_i r g b
-  cases Hex.parsePart r <;> cases Hex.parsePart g <;> cases Hex.parsePart b <;> simp
+  cases HexHand.Hex.parsePart r <;> cases HexHand.Hex.parsePart g <;> cases HexHand.Hex.parsePart b <;> simp
 
-theorem strip_nil : Hex.strip [] = [] := rfl
-theorem strip_hash (l : Str) : Hex.strip (35 :: l) = l := rfl
-theorem strip_cons_ne {x : Nat} (l : Str) (h : x ≠ 35) : Hex.strip (x :: l) = x :: l := by
-  unfold Hex.strip
+theorem strip_nil : HexHand.Hex.strip [] = [] := rfl
+theorem strip_hash (l : Str) : HexHand.Hex.strip (35 :: l) = l := rfl
+theorem strip_cons_ne {x : Nat} (l : Str) (h : x ≠ 35) : HexHand.Hex.strip (x :: l) = x :: l := by
+  unfold HexHand.Hex.strip
   split
   · rename_i heq; cases heq; exact absurd rfl h
   · rfl
@@ -284,7 +284,7 @@ theorem strip_cons_ne {x : Nat} (l : Str) (h : x ≠ 35) : Hex.strip (x :: l) = 
 /-- the double `strip` of the short form is harmless: a '#' that survives the first `strip` is
 doubled, survives the second one and is rejected as a non-digit -/
 theorem read6_unshorten {dv : Nat → Option Nat} (h35 : dv 35 = none) (u : Str) :
-    read6 dv (Hex.strip (u.flatMap fun c => [c, c])) = read3 dv u := by
+    read6 dv (HexHand.Hex.strip (u.flatMap fun c => [c, c])) = read3 dv u := by
   match u with
   | [] => rfl
   | x :: u1 =>
@@ -310,20 +310,20 @@ theorem read6_unshorten {dv : Nat → Option Nat} (h35 : dv 35 = none) (u : Str)
 
 /-- **Characterisation of the parser on every string.** -/
 theorem try_from_Hex_eq (s : Str) :
-    let spelled := if Str.byteLen s ≤ 4 then read3 hexDigitVal (Hex.strip s) else read6 hexDigitVal (Hex.strip s)
-    (∃ r g b, Rgb.try_from_Hex ⟨s⟩ = .ok ⟨r, g, b⟩ ∧ spelled = some (r, g, b)) ∨
-    (∃ e, Rgb.try_from_Hex ⟨s⟩ = .error e ∧ spelled = none) := by
+    let spelled := if Str.byteLen s ≤ 4 then read3 HexHand.hexDigitVal (HexHand.Hex.strip s) else read6 HexHand.hexDigitVal (HexHand.Hex.strip s)
+    (∃ r g b, HexHand.Rgb.try_from_Hex ⟨s⟩ = .ok ⟨r, g, b⟩ ∧ spelled = some (r, g, b)) ∨
+    (∃ e, HexHand.Rgb.try_from_Hex ⟨s⟩ = .error e ∧ spelled = none) := by
   intro spelled
-  simp only [Rgb.try_from_Hex]
+  simp only [HexHand.Rgb.try_from_Hex]
   by_cases hlen : Str.byteLen s ≤ 4
-  · have hsp : spelled = read6 hexDigitVal (Hex.strip (Hex.unshorten s)) := by
-      simp only [spelled, if_pos hlen, Hex.unshorten]
+  · have hsp : spelled = read6 HexHand.hexDigitVal (HexHand.Hex.strip (HexHand.Hex.unshorten s)) := by
+      simp only [spelled, if_pos hlen, HexHand.Hex.unshorten]
       rw [read6_unshorten hexDigitVal_hash]
     rw [hsp, if_pos hlen]
-    rcases get_u8_parts_eq (Hex.unshorten s) with ⟨⟨r, g, b⟩, h1, h2⟩ | ⟨e, h1, h2⟩
+    rcases get_u8_parts_eq (HexHand.Hex.unshorten s) with ⟨⟨r, g, b⟩, h1, h2⟩ | ⟨e, h1, h2⟩
     · left; exact ⟨r, g, b, by rw [h1], h2⟩
     · right; exact ⟨e, by rw [h1], h2⟩
-  · have hsp : spelled = read6 hexDigitVal (Hex.strip s) := by simp only [spelled, if_neg hlen]
+  · have hsp : spelled = read6 HexHand.hexDigitVal (HexHand.Hex.strip s) := by simp only [spelled, if_neg hlen]
     rw [hsp, if_neg hlen]
     rcases get_u8_parts_eq s with ⟨⟨r, g, b⟩, h1, h2⟩ | ⟨e, h1, h2⟩
     · left; exact ⟨r, g, b, by rw [h1], h2⟩
